@@ -9,8 +9,29 @@ the op list.
 namespace Driver.C12
 open ThermoVerif.Phases Driver
 
+/-- a `stream.temporary(T=, P=)` context object: its stream, the T and P it sets on entering, and the model
+snapshot that plays the role of its `data` attribute -/
+structure Ctx where
+  k : Nat
+  T : Option Rat
+  P : Option Rat
+  snap : Nat
+
 structure St where
   w : World := World.init 3
+  snapMap : List Nat := []      -- adapter snapshot number ↦ index into `w.snaps`
+  ctxs : List Ctx := []
+
+def parseOptRat (t : String) : Option (Option Rat) :=
+  if t == "-" then some none else (parseRat? t).map some
+
+/-- `__enter__`: `self.data = stream.get_data()`, then T and P as given -/
+def enterCtx (w : World) (c : Ctx) : World × Ctx :=
+  let idx := w.snaps.length
+  let w1 := w.apply (.save c.k)
+  let w2 := match c.T with | some x => w1.apply (.wT c.k x) | none => w1
+  let w3 := match c.P with | some x => w2.apply (.wP c.k x) | none => w2
+  (w3, { c with snap := idx })
 
 def parsePh : String → Option Ph
   | "L" => some .L | "S" => some .S | "g" => some .g | "l" => some .l | "s" => some .s | _ => none
@@ -125,7 +146,7 @@ def step (st : St) (line : String) : St × String :=
   match splitWs line with
   | ["chems", n] =>
     match n.toNat? with
-    | some n => if st.w.nStr == 0 && 2 ≤ n && n ≤ 4 then ({ w := World.init n }, s!"chems={n}") else (st, "bad-op")
+    | some n => if st.w.nStr == 0 && 2 ≤ n && n ≤ 4 then ({ st with w := World.init n }, s!"chems={n}") else (st, "bad-op")
     | none => (st, "bad-op")
   | ["iter", k] =>
     -- `list(stream)`: `MultiStream.__iter__` asks for the view of every phase in order; a `Stream` yields itself
@@ -135,15 +156,71 @@ def step (st : St) (line : String) : St × String :=
         let w' := if (st.w.str k).multi then
             (st.w.phases k).foldl (fun w p => w.apply (.view k p)) st.w
           else st.w
-        ({ w := w' }, showState w')
+        ({ st with w := w' }, showState w')
       else (st, "err=IndexError " ++ showState st.w)
     | none => (st, "bad-op")
+  | ["tmp", k, T, P] =>
+    -- `ctx = stream.temporary(T=, P=)`: the constructor already takes a snapshot
+    match k.toNat?, parseOptRat T, parseOptRat P with
+    | some k, some T, some P =>
+      if k < st.w.nStr then
+        let idx := st.w.snaps.length
+        let w' := st.w.apply (.save k)
+        ({ st with w := w', ctxs := st.ctxs ++ [{ k := k, T := T, P := P, snap := idx }] }, showState w')
+      else (st, "err=IndexError " ++ showState st.w)
+    | _, _, _ => (st, "bad-op")
+  | ["enter", c] =>
+    match c.toNat? with
+    | some c =>
+      match st.ctxs[c]? with
+      | some cx =>
+        let (w', cx') := enterCtx st.w cx
+        ({ st with w := w', ctxs := st.ctxs.set c cx' }, showState w')
+      | none => (st, "err=IndexError " ++ showState st.w)
+    | none => (st, "bad-op")
+  | ["exit", c] =>
+    -- `__exit__`: `stream.set_data(self.data)`
+    match c.toNat? with
+    | some c =>
+      match st.ctxs[c]? with
+      | some cx =>
+        match st.w.step (.restore cx.k cx.snap) with
+        | .ok w' => ({ st with w := w' }, showState w')
+        | .error e => (st, s!"err={e.toString} " ++ showState st.w)
+      | none => (st, "err=IndexError " ++ showState st.w)
+    | none => (st, "bad-op")
+  | ["with", k, T, P] =>
+    -- `with stream.temporary(T=, P=): pass`
+    match k.toNat?, parseOptRat T, parseOptRat P with
+    | some k, some T, some P =>
+      if k < st.w.nStr then
+        let w0 := st.w.apply (.save k)
+        let (w1, cx) := enterCtx w0 { k := k, T := T, P := P, snap := 0 }
+        match w1.step (.restore k cx.snap) with
+        | .ok w' => ({ st with w := w' }, showState w')
+        | .error e => (st, s!"err={e.toString} " ++ showState st.w)
+      else (st, "err=IndexError " ++ showState st.w)
+    | _, _, _ => (st, "bad-op")
+  | ["save", k] =>
+    match k.toNat? with
+    | some k =>
+      match st.w.step (.save k) with
+      | .ok w' => ({ st with w := w', snapMap := st.snapMap ++ [st.w.snaps.length] }, showState w')
+      | .error e => (st, s!"err={e.toString} " ++ showState st.w)
+    | none => (st, "bad-op")
+  | ["restore", k, n] =>
+    match k.toNat?, n.toNat? with
+    | some k, some n =>
+      match st.w.step (.restore k ((st.snapMap[n]?).getD st.w.snaps.length)) with
+      | .ok w' => ({ st with w := w' }, showState w')
+      | .error e => (st, s!"err={e.toString} " ++ showState st.w)
+    | _, _ => (st, "bad-op")
   | _ =>
   match parseOp st.w line with
   | none => (st, "bad-op")
   | some op =>
     match st.w.step op with
-    | .ok w' => ({ w := w' }, showState w')
+    | .ok w' => ({ st with w := w' }, showState w')
     | .error .outOfModel => (st, "bad-op")
     | .error e => (st, s!"err={e.toString} " ++ showState st.w)
 
